@@ -1,6 +1,7 @@
 import FractopoModel.Model.Snap
 import FractopoModel.Lemmas.SnapLoop
 import FractopoModel.Generated.SnapInsert
+import FractopoModel.Lemmas.SnapDriver
 import FractopoModel.Generated.Windows
 import FractopoModel.Generated.DegreeToClass
 import FractopoModel.Props.C05
@@ -157,6 +158,17 @@ theorem C06_generated_snap_to_another (dist : Pt → Polyline → Rat) (t : Rat)
   cases hl : (eps.filter fun ep => SnapL.near t ep another && !SnapL.onLine ep another) with
   | nil => simp
   | cons a as => simp
+
+/-! ### the regenerated repeat-until-stable driver (`while any_changes_applied` inside `branches_and_nodes`) -/
+
+/-- **The regenerated snapping driver is the model's loop.** With enough fuel (`allowed + 2` iterations can never all be taken:
+the counter check raises first) the regenerated `while any_changes_applied:` loop of `branches_and_nodes` -- pass again with
+the same traces / threshold / areas, count, raise RecursionError when more than `allowed_loops` repeat passes were needed -- returns
+exactly what `SnapL.snapLoop` returns, for every pass function that does not itself raise. It never runs out of fuel. -/
+theorem C06_generated_driver (ord : SnapL.Ord) (t margin : Rat) (areas : List Polygon) (allowed : Nat) (pass_ : List Polyline → List Polyline × Bool)
+    (hpass : ∀ tr, SnapL.snapPass ord t margin areas tr = .ok (pass_ tr)) (traces : List Polyline) :
+    Gen.snap_driver pass_ traces allowed (allowed + 2) = SnapL.snapLoop ord t margin areas allowed traces :=
+  SnapDriver.generated_driver ord t margin areas allowed pass_ hpass traces
 
 /-- non-vacuity: a T-abutment that touches exactly is quiet; the same end 1/200 short of the target is
 inserted into the target by one pass (threshold 1/100), and a second pass changes nothing -/
